@@ -15,8 +15,95 @@ import (
 	"golang.org/x/tools/go/packages"
 )
 
+// forkRequest: an inlined call whose return paths cannot be merged asks the enclosing statement
+// (which consists of just that call) to be continued once per return path.
+type forkRequest struct {
+	call *ast.CallExpr
+	fr   *Frame
+	rets []*State
+	outs []Val
+}
+
+// withFork runs a statement whose only effectful sub-expression is call; if the inlined call cannot
+// merge its return paths the statement is re-run on each of them with the call's result memoised.
+func (v *Verifier) withFork(fr *Frame, st *State, call *ast.CallExpr, run func(st *State) []*State) []*State {
+	if call == nil || fr.inSpec || !v.simpleArgs(fr, call) {
+		return run(st)
+	}
+	saveC, saveF := v.forkCall, v.forkFrame
+	v.forkCall, v.forkFrame = call, fr
+	var req *forkRequest
+	outs := func() (outs []*State) {
+		defer func() {
+			v.forkCall, v.forkFrame = saveC, saveF
+			if r := recover(); r != nil {
+				if fq, ok := r.(*forkRequest); ok && fq.call == call && fq.fr == fr {
+					req = fq
+					return
+				}
+				panic(r)
+			}
+		}()
+		return run(st)
+	}()
+	if req == nil {
+		return outs
+	}
+	outs = nil
+	for k, r := range req.rets {
+		n := st.fork()
+		n.vals, n.heaps, n.pc, n.alloc = r.vals, r.heaps, r.pc, r.alloc
+		n.ctl = CtlNormal
+		if fr.memo == nil {
+			fr.memo = map[*ast.CallExpr]Val{}
+		}
+		fr.memo[call] = req.outs[k]
+		outs = append(outs, run(n)...)
+		delete(fr.memo, call)
+	}
+	return outs
+}
+
+// simpleArgs: the receiver and arguments of call contain no calls except conversions and len/cap
+// (so evaluating them twice is harmless).
+func (v *Verifier) simpleArgs(fr *Frame, call *ast.CallExpr) bool {
+	ok := true
+	chk := func(e ast.Expr) {
+		ast.Inspect(e, func(n ast.Node) bool {
+			ce, isCall := n.(*ast.CallExpr)
+			if !isCall {
+				_, isLit := n.(*ast.FuncLit)
+				if isLit {
+					ok = false
+				}
+				return ok
+			}
+			if tv, has := fr.pkg.TypesInfo.Types[ce.Fun]; has && tv.IsType() {
+				return true
+			}
+			if id, isId := ce.Fun.(*ast.Ident); isId && (id.Name == "len" || id.Name == "cap") {
+				return true
+			}
+			ok = false
+			return false
+		})
+	}
+	if sel, isSel := call.Fun.(*ast.SelectorExpr); isSel {
+		chk(sel.X)
+	}
+	for _, a := range call.Args {
+		chk(a)
+	}
+	return ok
+}
+
 func (v *Verifier) evalCall(fr *Frame, st *State, x *ast.CallExpr) Val {
 	c := v.eng.C
+	if fr.memo != nil {
+		if val, ok := fr.memo[x]; ok {
+			return val
+		}
+	}
 	// contract-language specials
 	if id, ok := x.Fun.(*ast.Ident); ok && v.lookupObj(fr, id) == nil {
 		switch id.Name {
@@ -923,10 +1010,27 @@ func (v *Verifier) execInline(fr *Frame, st *State, fi *FuncInfo, recv Val, args
 	}
 	merged := v.eng.join(base, rets)
 	if len(merged) != 1 {
+		if v.forkCall == x && v.forkFrame == fr {
+			// the enclosing statement is just this call: continue each return path separately
+			req := &forkRequest{call: x, fr: fr, rets: rets}
+			for _, r := range rets {
+				var out []Val
+				for _, rc := range rcells {
+					out = append(out, r.vals[rc])
+					delete(r.vals, rc)
+				}
+				if len(out) == 1 {
+					req.outs = append(req.outs, out[0])
+				} else {
+					req.outs = append(req.outs, TupleVal{out})
+				}
+			}
+			panic(req)
+		}
 		panic(unsupportedf(x.Pos(), "cannot merge %d return paths of inlined %s", len(rets), fn.Name()))
 	}
 	m := merged[0]
-	st.vals, st.heaps, st.pc = m.vals, m.heaps, m.pc
+	st.vals, st.heaps, st.pc, st.alloc = m.vals, m.heaps, m.pc, m.alloc
 	var out []Val
 	for _, rc := range rcells {
 		out = append(out, st.vals[rc])
